@@ -41,9 +41,24 @@ P_CYCLE = "reference cycle without a boxed rule"
 MAX_BUILD_ATTEMPTS = 4
 
 
-def _cases_for(g, rnd, maxlen, nrand):
+def _cycle_walks(g):
+    """Inputs that actually go round the cycle of a cycle-shape grammar: the letters of c0, c1, … in cyclic order."""
+    n = sum(1 for r, _ in g["rules"] if re.fullmatch(r"c\d+", r))
+    if not n:
+        return ["a", "ab", "an", "ano", "anoa", "anop", "anopa!", "ab!", "aba!", "abano", "z"]
+    out = []
+    for k in range(1, 2 * n + 3):
+        w = "".join(chr(97 + (i % n)) for i in range(k))
+        out += [w, w + "!", "u" + w, "u" + w + "v"]
+        if n > 1:
+            out.append("".join(chr(97 + ((i + 1) % n)) for i in range(k)))
+    return out + ["z"]
+
+
+def _cases_for(g, rnd, maxlen, nrand, extra=()):
     cases = []
     ins = corpus.inputs_for(g, rnd, maxlen, nrand)
+    ins += [x for x in extra if x not in ins]
     for (rule, kind) in g["rules"]:
         for s in ins:
             for entry in ("parse_partial", "parse"):
@@ -190,7 +205,7 @@ def suite_opts(tier, seed):
     for g in ok:
         big = len(g["rules"]) > 40
         if g["gid"].startswith("y_"):
-            cases += _cases_for(g, rnd, 3, 4)         # the cycle-shape family: many small grammars
+            cases += _cases_for(g, rnd, 2, 4, _cycle_walks(g))     # the cycle-shape family: many small grammars
         elif tier == "quick":
             cases += _cases_for(g, rnd, 4, 10)
         else:
